@@ -37,6 +37,7 @@ EXPLANATION = (
     "process agree on closed forms of every kernel argument, recorder call and state store (R-C01-6). Not decided: whether "
     "the kept tail is the right one, plateaus across chunk borders, i.e. equality of results for all signals and partitions.")
 EXPLANATION += (" R-C01-7: no detector attribute holds an alias or view of the caller's chunk (attribute provenance from the effect analysis), and values cached on recorders/detectors are reset by every method that changes what they are computed from (memo rule with a built-in positive example).")
+EXPLANATION += (' R-C01-8: in every detector process() every path to a normal exit passes the _new_turns call (CFG must-pass: no chunk bypasses the tail / head bookkeeping), and no record_* / report_chunk method of a recorder branches on the values it is handed (np.any, truthiness, comparisons) - only on their number.')
 ASSUMPTIONS = [
     "np.searchsorted(a, v, side) follows its documented bracket on an ascending array",
     "the compiled rainflow_ext kernels are built from extension.pyx",
@@ -80,6 +81,83 @@ def run(ctx):
     ctx.attempt(_r5_bracket, prog)
     ctx.attempt(_r6_siblings, prog, dets)
     ctx.attempt(_r7_state, prog, dets)
+    ctx.attempt(_r8_every_chunk_consumed, prog, dets)
+
+
+def value_conditioned_branches(fn_node, params):
+    """branch conditions of a recorder method that look at the VALUES of what is recorded (np.any / np.all / bool / comparison
+    of a parameter), as opposed to how many there are (len, .size, .shape, `is None`).  A zero is a value like any other: a
+    chunk whose closed loops all start at 0.0 is not an empty chunk."""
+    out = []
+    for st in ast.walk(fn_node):
+        test = st.test if isinstance(st, (ast.If, ast.While, ast.IfExp, ast.Assert)) else None
+        if test is None:
+            continue
+        for n in ast.walk(test):
+            if isinstance(n, ast.Name) and n.id in params and isinstance(n.ctx, ast.Load):
+                par = getattr(n, "_parent", None)
+                ok = False
+                anc = par
+                # allowed contexts: len(p), p.size / p.shape / p.ndim, p is None / is not None, isinstance(p, ...)
+                if isinstance(par, ast.Call) and call_name(par) in ("len", "isinstance", "np.ndim", "np.size", "np.shape"):
+                    ok = True
+                if isinstance(par, ast.Attribute) and par.attr in ("size", "shape", "ndim", "index", "dtype"):
+                    ok = True
+                if isinstance(par, ast.Compare) and len(par.ops) == 1 and isinstance(par.ops[0], (ast.Is, ast.IsNot)):
+                    ok = True
+                if not ok:
+                    out.append((st, n))
+                    break
+    return out
+
+
+def _r8_every_chunk_consumed(ctx, prog, dets):
+    """R-C01-8: (a) every chunk is consumed: in each detector's process() every path to a normal exit passes the call that moves
+    the chunk into the carried sample tail and the head index (_new_turns) - an early return for 'too short' chunks loses the
+    sample for good; (b) what a recorder stores does not depend on the values it is handed: no branch of a record_* /
+    report_chunk method looks at the values (np.any(values) is False for a non-empty batch of zeros), only at their number."""
+    from ..cfg import CFG
+    from ..frontend import set_parents
+    ctx.rule("R-C01-8", floor=5, what="every chunk reaches the tail bookkeeping on every path; recorders branch on counts, never on recorded values")
+    for c, fi in dets:
+        f2 = fi
+        nts = [x for x in walk_function(f2.node) if isinstance(x, (ast.Assign, ast.Expr)) and
+               any(isinstance(k.func, ast.Attribute) and is_self_attr(k.func) and k.func.attr == "_new_turns" for k in calls_in(x))]
+        if len(nts) != 1:
+            from ..inline import inlined
+            f2 = inlined(prog, fi, skip=("_new_turns",))
+            nts = [x for x in walk_function(f2.node) if isinstance(x, (ast.Assign, ast.Expr)) and
+                   any(isinstance(k.func, ast.Attribute) and is_self_attr(k.func) and k.func.attr == "_new_turns" for k in calls_in(x))]
+        if len(nts) != 1:
+            raise AnalysisError("%s.process: the call of _new_turns was not found" % c.name)
+        cfg = CFG(f2.node)
+        if cfg.must_pass(cfg.exit, {cfg.node(nts[0])}):
+            ctx.holds(fi, nts[0], "%s.process: every path to a normal exit passes _new_turns" % c.name)
+        else:
+            ctx.violated(fi, nts[0], "%s.process: a path returns without calling _new_turns: the samples of that chunk never enter "
+                         "the carried tail and the head index, so the result depends on where the signal was cut" % c.name,
+                         text="chunk not consumed " + c.name)
+    ex = set_parents(ast.parse("def record_values(self, values_from, values_to):\n    if not np.any(values_from):\n        return\n"
+                               "    if len(values_to) == 0 or values_from is None:\n        return\n")).body[0]
+    if len(value_conditioned_branches(ex, {"values_from", "values_to"})) != 1:
+        raise AnalysisError("R-C01-8 built-in example not matched")
+    n = 0
+    for key, fi in sorted(prog.functions.items()):
+        if fi.module.name not in (GEN, "pylife.stress.rainflow.recorders") or fi.cls is None or fi.parent is not None:
+            continue
+        if not (fi.name.startswith("record_") or fi.name == "report_chunk"):
+            continue
+        n += 1
+        params = {q for q in fi.params if q != "self"}
+        bad = value_conditioned_branches(fi.node, params)
+        for st, nm in bad:
+            ctx.violated(fi, st, "%s.%s branches on the values of %s (%s): a batch whose values are all zero is treated like an "
+                         "empty one, so what is recorded depends on how the loops are spread over the chunks" %
+                         (fi.cls.name, fi.name, nm.id, norm_text(st.test)[:50]), text="value conditioned %s.%s" % (fi.cls.name, fi.name))
+        if not bad:
+            ctx.holds(fi, fi.node, "%s.%s branches on counts only" % (fi.cls.name, fi.name))
+    if n < 4:
+        raise AnalysisError("recorder methods not found")
 
 
 def _r7_state(ctx, prog, dets):
